@@ -778,6 +778,15 @@ class Interp:
     def pick(self, which, u, v):
         u, v = P._to_rat(u), P._to_rat(v)
         d = (u - v).const()
+        if d is None:
+            # a difference built from pi only (2*pi - 0 ...) is a number too
+            try:
+                diff = u - v
+                if all(P.atom(t).kind == "sym" and P.atom(t).name == "pi" for t in diff.atoms()):
+                    import math
+                    d = P.evalf(diff, lambda at: math.pi)
+            except Exception:
+                d = None
         if d is not None:
             return (u if d >= 0 else v) if which == "max" else (u if d <= 0 else v)
         r = None
